@@ -1,18 +1,19 @@
 #!/bin/bash
-# usage: silent_test.sh [patch ...]   — behaviour-preserving patches: apply each to /repo, run ALL checks, undo.
+# usage: silent_test.sh [patch ...]   — behaviour-preserving patches: apply each to $REPO, run ALL checks, undo.
 # Every check must stay silent (OK). Prints one line per (patch, check) that is not OK.
 set -u
+REPO=${REPO:-/repo}; export VERIF_REPO=$REPO
 cd /verif
 PATCHES=("$@"); [ ${#PATCHES[@]} -eq 0 ] && PATCHES=(mutants/silent/*.diff)
 IDS=$(ls rules | sed -n 's/^c\([0-9][0-9]\)\.py$/C\1/p')
 bad=0
 for P in "${PATCHES[@]}"; do
   P=$(readlink -f "$P")
-  git -C /repo diff --quiet || { echo "/repo has local changes; refusing"; exit 2; }
-  git -C /repo apply "$P" || { echo "NOAPPLY $P"; bad=1; continue; }
+  git -C $REPO diff --quiet || { echo "$REPO has local changes; refusing"; exit 2; }
+  git -C $REPO apply "$P" || { echo "NOAPPLY $P"; bad=1; continue; }
   ./check C18 >/dev/null 2>&1   # warm the fact cache once for this tree
   out=$(echo $IDS | tr ' ' '\n' | xargs -P 8 -I{} sh -c './check {} 2>&1 | grep -E "violated:|^OK|TOOL-FAILURE|Traceback" | sed "s/^/{} /"')
-  git -C /repo checkout -- . ; git -C /repo clean -fdq -e target
+  git -C $REPO checkout -- . ; git -C $REPO clean -fdq -e target
   n_ok=$(echo "$out" | grep -c " OK property")
   echo "== $(basename $P): $n_ok/19 OK"
   echo "$out" | grep -v " OK property" | cut -c1-240
